@@ -765,7 +765,9 @@ bool qvector_resize(qvector_t *vector, size_t newmax) {
         return true;
     }
 
-    void *newdata = realloc(vector->data, newmax * vector->objsize);
+    // a byte count that does not fit size_t can not be allocated
+    void *newdata = (newmax > SIZE_MAX / vector->objsize) ? NULL :
+                    realloc(vector->data, newmax * vector->objsize);
     if (newdata == NULL) {
         errno = ENOMEM;
         vector->unlock(vector);
